@@ -252,6 +252,7 @@ class Lane:
         self.load_exc = None
         self.load_tb = None
         self._config_cache = {}
+        self._estimate_cache = {}
         self.old_results = []  # frame results of earlier manager generations (one "scene" each)
         self.old_egos = []
         self.aborted = False
@@ -398,7 +399,15 @@ class Lane:
             # of such steps are judged with a correspondingly wider indeterminacy band
             st.ego_ref = ctx.ego_for_time(frame.unix_time)
             st.eps = 1e-5
-        st.estimates, st.est_info = self.render_estimates(msg, st.ego_ref, msg["stamp"])
+        est_time = int(frame.unix_time) if plan.get("stamp_as_gt_time") else msg["stamp"]
+        cache_key = (self.generation, op["mid"], st.frame_kind, st.frame_index, est_time)
+        if plan.get("reuse_estimates") and cache_key in self._estimate_cache:
+            st.estimates, st.est_info = self._estimate_cache[cache_key]
+            ctx.probe("estimates_object_reused")
+        else:
+            st.estimates, st.est_info = self.render_estimates(msg, st.ego_ref, est_time)
+            if st.frame_kind == "loaded":
+                self._estimate_cache[cache_key] = (st.estimates, st.est_info)
         st.crit_spec = op.get("crit") or plan["crit_default"]
         st.pf_spec = op.get("pf") or plan["pf_default"]
         st.crit = self._config_object("crit", st.crit_spec, make_crit)
